@@ -211,6 +211,32 @@ def _parse_rules(c, t, toks, names, pic, oks):
                 lo_ok = lo_ok and e[1][0] >= 1
         c.rec('C05', f"parse {t} [{pic}]: day of year accepted exactly in 1..=365 (366 in leap years)", lo_ok and hi[True] == 366 and hi[False] == 365,
               f"largest accepted day of year: leap {hi[True]}, common {hi[False]}; lower bound ok: {lo_ok}")
+    # a weekday field is compared with the weekday of the *assembled* date: the record fields at the comparison are the final ones
+    if any(k in ('DayOfWeek', 'DayName') for k in kinds) and t in DATE_T:
+        for e in evs:
+            chk, st_ = e[4].get('dowcheck'), e[5]
+            ok = chk is not None
+            why = 'no date was built for the weekday comparison'
+            if ok:
+                for nm, f0 in zip(('year', 'month', 'day'), chk):
+                    f1 = e[4].get(nm)
+                    if f0 is None or not f1 or not (f0 == f1[0] or st_.num.eq0(f0.sub(f1[0]))):
+                        ok = False
+                        why = f"{nm} at the weekday comparison is {f0!r}, the assembled {nm} is {f1[0] if f1 else None!r}"
+                        break
+            c.rec('C05', f"parse {t} [{pic}]: the weekday field is checked against the date that is returned (after day-of-year resolution)", ok, why)
+    # day of year together with a month or a day field: the text field is kept and the other part comes from the day of the year
+    if 'DayOfYear' in kinds and t in DATE_T and len(kinds) == 2:
+        other = [k for k in kinds if k != 'DayOfYear']
+        if other and other[0] in ('Month', 'MonthName'):
+            hi = max((e[4]['day'][1][1] for e in evs if e[4].get('day')), default=0)
+            c.rec('C05', f"parse {t} [{pic}]: with a month field the day comes from the day of the year (all of 1..=31 reachable)", hi >= 31,
+                  f"largest day reaching the assembly: {hi}")
+        if other and other[0] == 'Day':
+            lo = min((e[4]['month'][1][0] for e in evs if e[4].get('month')), default=99)
+            hi = max((e[4]['month'][1][1] for e in evs if e[4].get('month')), default=0)
+            c.rec('C05', f"parse {t} [{pic}]: with a day field the month comes from the day of the year (all of 1..=12 reachable)", lo <= 1 and hi >= 12,
+                  f"months reaching the assembly: {lo}..{hi}")
     # 12-hour field: only 1..=12 reach the assembly (0 and 13.. are rejected, empty input defaults to 12)
     if kinds == ['Hour12']:
         for e in evs:
@@ -254,8 +280,9 @@ def _parse_rules(c, t, toks, names, pic, oks):
         c.rec('C18', f"parse {t} [{pic}]: exactly the omitted (or abbreviated) year / omitted month come from the clock",
               want <= tainted <= (want | optional), f"clock-dependent fields {sorted(tainted)}, expected {sorted(want)} (+ optionally {sorted(optional)})")
         need_read = bool(want) or bool(tainted)
+        may_read = need_read or not month_set or not full_year      # an omitted (or abbreviated) year / month code may consult the clock
         c.rec('C18', f"parse {t} [{pic}]: at most one clock reading per parse, none when year and month are given in full",
-              reads == (1 if need_read else 0) or (reads == 1 and 'month' in want and any(x[1] == 'DayOfYear' for x in toks)),
+              (reads == 1 if need_read else (reads <= 1 if may_read else reads == 0)),
               f"{reads} reading(s)")
     # completion of abbreviated years: the clock is used exactly when at most n characters were consumed (YY: a longer
     # year is taken literally)
